@@ -1,6 +1,6 @@
 (* C11 - Capital returns and accumulations move cost by exactly their amount.  Statements only. *)
-From Coq Require Import QArith Qcanon ZArith List Bool.
-Require Import CGT.Model.Num CGT.Model.Match CGT.Proofs.MatchFacts.
+From Coq Require Import QArith Qcanon ZArith List Bool Sorted.
+Require Import CGT.Model.Num CGT.Model.Match CGT.Proofs.MatchFacts CGT.Proofs.MatchInv CGT.Proofs.MatchCost CGT.Proofs.PrepassFacts.
 Import ListNotations.
 Open Scope Qc_scope.
 
@@ -8,4 +8,42 @@ Open Scope Qc_scope.
 Theorem C11_adjustment_exact : forall ls a, (forall l, In l ls -> 0 <= pl_held l) -> total_held ls <> 0 ->
   offs_total (apply_adj ls a) = offs_total ls + a.
 Proof. exact apply_adj_total. Qed.
+
+(* The events of one day: when they are accepted, the total of the offsets moves by exactly the sum of their net
+   amounts (accumulation +, capital return -) if the security has been bought and shares are held, and by nothing
+   otherwise; the number of shares each lot holds is untouched. *)
+Theorem C11_day_events_exact : forall started d es ls ls' b, lots_ok ls b -> apply_evs started d ls es = inr ls' ->
+  offs_total ls' = offs_total ls + (if started && negb (qeqb (total_held ls) 0) then qsum (map ev_amount es) else 0) /\
+  map pl_held ls' = map pl_held ls /\ lots_ok ls' b.
+Proof. exact apply_evs_total. Qed.
+
+(* Over the whole history: the lot offsets add up to exactly the events that took effect. *)
+Theorem C11_offsets_total : forall ds started ls ls', wf_days ds -> sorted_days ds ->
+  (forall d, In d ds -> lots_ok ls (dt d)) -> prepass started ls ds = inr ls' ->
+  offs_total ls' = offs_total ls + effective_total started ls ds.
+Proof. exact prepass_total. Qed.
+
+(* An accumulation and a capital return of equal net amount cancel lot by lot. *)
+Theorem C11_cancel : forall ls a, apply_adj (apply_adj ls a) (- a) = ls.
+Proof. exact apply_adj_cancel. Qed.
+
+(* A capital return larger than the adjusted cost of the lots still held is refused. *)
+Theorem C11_refusal : forall d ls net r, qltb (total_adj_cost ls) net = true ->
+  apply_evs true d ls (Cap net :: r) = inl (ECapExceeds d).
+Proof. intros d ls net r H. cbn [apply_evs]. rewrite H. reflexivity. Qed.
+
+(* Negative allowable cost CAN be reported (the code apportions by share count but tests the summed cost): a
+   witness on the model, which copies the code here - the known finding kf_lot_cost_below_share. *)
+Definition c11_lots : list plot :=
+  [ {| pl_dt := 1; pl_amt := Q2Qc 1; pl_base := Q2Qc 1000; pl_off := 0; pl_cons := 0 |};
+    {| pl_dt := 2; pl_amt := Q2Qc 1000; pl_base := Q2Qc 1; pl_off := 0; pl_cons := Q2Qc 500 |} ].
+Theorem C11_nonneg_cost_refuted : exists ls', apply_evs true 3 c11_lots [Cap (Q2Qc 900)] = inr ls' /\
+  existsb (fun l => qltb (pl_adj l) 0) ls' = true.
+Proof. eexists. split; vm_compute; reflexivity. Qed.
+
 Print Assumptions C11_adjustment_exact.
+Print Assumptions C11_day_events_exact.
+Print Assumptions C11_offsets_total.
+Print Assumptions C11_cancel.
+Print Assumptions C11_refusal.
+Print Assumptions C11_nonneg_cost_refuted.
